@@ -20,3 +20,34 @@ Theorem C15_growth : forall w k v w',
   bw_size w + len (frame k v) <= bw_size w' <= bw_size w + len (frame k v) + 8.
 Proof. exact bw_insert_growth. Qed.
 Print Assumptions C15_growth.
+
+(* ---- the whole writer, any sink, any insert sequence.  B = the effective block size (>= 1024 after
+   the clamp; the hypothesis 12 < B only says an empty block is below it).  cut_level = data blocks
+   and index blocks of level >= 2 (more than one level below the root). ---- *)
+From Grenad.model Require Import Trailer.
+From Grenad.proofs Require Import WriterInv.
+
+(* every emitted block of a cut level is the finish of a block writer that was below B before its
+   last insert (or is still below B: the blocks flushed by into_inner) *)
+Theorem C15_cut : forall SK wr fl cnt compress c s0 es i s lg m,
+  12 < wc_block_size c -> wc_levels c < 256 ->
+  w_run_gen SK wr fl cnt compress c s0 es = (i, Done (s, lg, m)) ->
+  Forall (fun e => cut_level c (em_level e) ->
+            exists w es', bw_ok w es' /\ bw_finish w = Done (em_bytes e) /\ (below c w \/ justins c w)) lg.
+Proof. intros SK wr fl cnt compress c s0 es i s lg m HB HL H. exact (proj2 (w_run_gen_blocks SK wr fl cnt compress c HB s0 es i s lg m HL H)). Qed.
+Print Assumptions C15_cut.
+
+(* every block emitted while inserting (all but the last block of each level, which into_inner
+   flushes) has reached B *)
+Theorem C15_reached : forall SK wr cnt compress c s0 es j st,
+  12 < wc_block_size c -> wc_levels c < 256 ->
+  w_inserts_at SK wr cnt compress c (w_new SK c s0) es 0 = (j, Done st) ->
+  Forall (fun e => cut_level c (em_level e) -> wc_block_size c <= len (em_bytes e)) (w_log st).
+Proof. intros SK wr cnt compress c s0 es j st HB HL H. exact (proj1 (w_inserts_blocks_full SK wr (fun s => Done s) cnt compress c HB s0 es j st HL H)). Qed.
+Print Assumptions C15_reached.
+
+(* hence no such block exceeds B by more than one framed entry plus one footer slot *)
+Theorem C15_overshoot : forall c w k v w', below c w -> bw_insert w k v = Done w' ->
+  bw_size w' < wc_block_size c + len (frame k v) + 8.
+Proof. intros c w k v w' Hb Hi. pose proof (bw_insert_growth w k v w' Hi). unfold below in Hb. Lia.lia. Qed.
+Print Assumptions C15_overshoot.
